@@ -56,7 +56,13 @@ class UnicodeForPython3(str):
         return self.value == other or self.value.decode("utf-8") == other
 
     def __hash__(self) -> int:
-        return id(self.value)
+        # Not id(self.value): that made the order of sets and dicts holding
+        # these objects depend on memory addresses, i.e. differ from one load
+        # of the same file to the next.  Hash what __eq__ compares.
+        try:
+            return hash(self.value.decode("utf-8"))
+        except UnicodeDecodeError:
+            return hash(self.value)
 
     def __repr__(self) -> str:
         r"""
